@@ -10,7 +10,10 @@ META = {
             "Load/Push/Add/Store, unary minus is total on signed kinds. The per-operator dispatch sets are REGENERATED from "
             "math.go on every run (go/ast) and their completeness is re-proved by `decide`; the model is tied to the code by "
             "a differential run of the real instruction functions and of the real compiler on x++ / x += k / x = x + k at "
-            "optimizer levels 0 and 2 in all three type modes, with model-free oracles (Go's own arithmetic).",
+            "optimizer levels 0 and 2 in all three type modes, where the target x is a plain variable, an array element "
+            "(constant and variable index), a struct field, a map element or an array inside a struct, with model-free "
+            "oracles (Go's own typed arithmetic: the target keeps its declared type and holds wrap(T, old ± k); float32/"
+            "float64 targets are covered by these oracles only).",
     "note": "trusted: Lean kernel; tools/extract_c03 (go/ast pass) and the harnesses; modelled-not-verified: float32/float64/"
             "complex operand VALUES (only their result kind class `float`), ego.runtime.precision.error=true, strings/bools/"
             "arrays as operands, the argument/return coercion boundaries (covered by C04's harness only), exponent and bit ops. "
@@ -113,7 +116,8 @@ def run(ctx):
         "rule": "instruction cells: operator × strictness × operand pair (variable/constant of each integer kind, float constants; "
                 "boundary + random values), executed on a real Context; non-trivial = operands differ in kind or constness, distinct "
                 "by protocol line. statement cells: Load/Push/op/Store vs fused Increment in 3 modes. source cells: real compiler on "
-                "x++ / x += k / x = x + k (and - forms), 10 kinds × boundary starts × 3 modes × optimizer {0,2}",
+                "x++ / x += k / x = x + k (and - forms), 6 target shapes (variable, a[1], a[i], s.f, m[\"k\"], s.a[1]) × 10 integer kinds "
+                "+ float32/float64 × boundary starts × 3 modes × optimizer {0,2}",
         "samples": st.get("samples", []) + st2.get("samples", [])[:3],
         "counters": c,
     })
